@@ -19,6 +19,7 @@ def main():
     a = ap.parse_args()
     seed = int(os.environ.get("VERIF_SEED", "0") or 0)
     tier = a.tier if a.tier in ("quick", "thorough") else "quick"
+    os.environ["VERIF_TIER_EFFECTIVE"] = tier
     ctx = core.Ctx(a.pid, tier, seed)
     try:
         mod = importlib.import_module("props." + a.pid.lower())
